@@ -101,12 +101,14 @@ Definition sync_val (v : val) : bool := match v with VInt _ => true | VSeq a _ =
 Inductive filt :=
 | FMapAbs | FSelectOdd | FRejectOdd            (* lazy producers: generator / async generator *)
 | FList | FFirst | FSum | FJoin | FUnique | FSlice1   (* have an @async_variant *)
-| FSort | FMax | FMin | FReverse | FBatch1 | FLength.  (* no async variant *)
+| FSort | FMax | FMin | FReverse | FBatch1            (* got one in /repo f6c81fd, a69269b, d4b3a53, fe6bb48 *)
+| FLength.                                             (* no async variant (fails on any generator, in both modes) *)
 
 Definition has_async_variant (f : filt) : bool :=
   match f with
-  | FMapAbs | FSelectOdd | FRejectOdd | FList | FFirst | FSum | FJoin | FUnique | FSlice1 => true
-  | _ => false
+  | FMapAbs | FSelectOdd | FRejectOdd | FList | FFirst | FSum | FJoin | FUnique | FSlice1
+  | FSort | FMax | FMin | FReverse | FBatch1 => true
+  | FLength => false
   end.
 (* in async mode the result is an async generator *)
 Definition lazy_producer (f : filt) : bool :=
